@@ -459,7 +459,8 @@ func engineConvert(x *X) {
 				o := rw.observe(repo)
 				if d := obsDiff(ref[repo], o, truth[repo].wrongMT); len(d) > 0 {
 					kind, _, _ := strings.Cut(d[0], " ")
-					x.viol([]string{"C17"}, "convert.interrupted-differs", kind+" after "+sig, fmt.Sprintf("%s, then repeated by a fresh server: %s answers differ from the uninterrupted conversion: %s", where, repo, strings.Join(d, "; ")))
+					// (C09 too: its histories include conversions; what the layout held before the crash is still in effect afterwards)
+					x.viol([]string{"C17", "C09"}, "convert.interrupted-differs", kind+" after "+sig, fmt.Sprintf("%s, then repeated by a fresh server: %s answers differ from the uninterrupted conversion: %s", where, repo, strings.Join(d, "; ")))
 					break
 				}
 				rw.judgeMarked(repo, "after an interrupted conversion was repeated")
